@@ -64,6 +64,7 @@ type Contract struct {
 	// Closure contracts: parameters of the form `apply fn(i, j) == expr` give
 	// meaning to function-typed parameters; see spec.go.
 	ReplayReq []string // extra input restrictions for the replay sweep (evaluation cost)
+	Insts      []string // extra instantiation terms for quantified hypotheses, over the goal's bound variable
 	OpaqueFns  []string // spec functions kept uninterpreted in this function's VCs
 	SkipSafety bool    // run-time-panic obligations are assumed, not proved (effects-only contract)
 	Nilable   []string // parameters that may be nil (default: pointer-like parameters are required non-nil)
@@ -341,6 +342,8 @@ func (cs *ContractSet) parseFile(fset *token.FileSet, pkgPath string, f *ast.Fil
 			} else {
 				cs.Errors = append(cs.Errors, ln.pos+": use-step outside loop")
 			}
+		case "inst":
+			cur.Insts = append(cur.Insts, rest)
 		case "opaque-fn":
 			cur.OpaqueFns = append(cur.OpaqueFns, strings.Fields(rest)...)
 		case "skip-safety":
